@@ -176,6 +176,10 @@ var _ = pr.AutoF
 //@   modifies anything
 //@   ensures[columns-fill-table] len(table.ColumnWidths) > 0 ==> table.Width.V() == sum(table.ColumnWidths, 0, len(table.ColumnWidths)) + allBorderSpacing
 //@   ensures[spacing] allBorderSpacing == borderSpacingX * real(numColumns + 1)
+// "no column has a negative used size": the two places that derive a column width by division
+// (a first-row cell spread over the columns it spans; the remaining table width shared by the
+// columns left without a width) never produce a negative width
+//@   assert after widthPerColumn#1: widthPerColumn >= 0
 //@   shows[a] extraWidth <= 0 ==> sumColumnWidths == sum(table.ColumnWidths, 0, len(table.ColumnWidths))
 //@   shows[b] extraWidth > 0 && numColumns != 0 ==> sum(table.ColumnWidths, 0, len(table.ColumnWidths)) == sumColumnWidths + extraWidth
 //@   shows[c] extraWidth <= 0 ==> table.Width.V() == sumColumnWidths + allBorderSpacing
